@@ -15,7 +15,7 @@ PROP = "C20"
 PROP_NO = 20
 LEVEL = "fault_enumeration"
 SOLVER_SEAM = True
-RULE = ("one evaluation = one faulted run (state, fit index k, failure kind) compared with its reference run and with the "
+RULE = ("one evaluation = one faulted run (state, solve index k, failure kind) compared with its reference run and with the "
         "fault-free run; within each sampled state ALL fit indices x both kinds are enumerated; distinct = distinct (estimator, "
         "estimand count, level count, which fit (median / lower / upper), kind, lambda > 0); non-trivial = the fault actually fired "
         "(the solver seam counted it) on a state whose fault-free run produced estimates")
@@ -29,7 +29,7 @@ STUBBED = C.STUBBED + ["solver failure: QuantileRegressionSolver subclass that f
 
 
 def budget(tier):
-    return dict(nights=28, wall_s=170) if tier == "quick" else dict(nights=650, wall_s=1700)
+    return dict(nights=36, wall_s=240) if tier == "quick" else dict(nights=650, wall_s=1700)
 
 
 WORLD = dict(offices=["G", "S", "H"], unit_types=["precinct", "county"], n_states=(1, 2), n_counties=(3, 6), n_units=(3, 7), zero_baseline_frac=0.02)
@@ -52,7 +52,7 @@ def make_spec(st, idx, tier):
     for i, o in enumerate(seq):
         o["t"] = round(cut + 0.001 * (i + 1), 4)
     spec["ops"] = ops + seq
-    spec["n_fits_expected"] = F
+    spec["n_fits_expected"] = F  # upper bound on the number of single-quantile solves; indices beyond the real count are skipped
     return spec
 
 
@@ -88,6 +88,10 @@ class Checker(C.BaseChecker):
         self.base = None
         self.ref = {}
 
+    def should_skip(self, ex, op):
+        # solve indices beyond the solves the fault-free run makes have nothing to fail
+        return op.get("fit_index") is not None and self.base is not None and self.base.ok and op["fit_index"] >= self.base.extra["n_solves"]
+
     def after_poll(self, ex, op, rec):
         st = ex.stats
         role = op.get("role")
@@ -95,8 +99,7 @@ class Checker(C.BaseChecker):
         if role == "base":
             self.base = rec
             st.probes["base_ok" if rec.ok else "base_failed"] += 1
-            if rec.ok and len(rec.extra["fits"]) != ex.spec["n_fits_expected"]:
-                return [self.v("harness_fit_count", f"fault-free run made {len(rec.extra['fits'])} fits, expected {ex.spec['n_fits_expected']}")]
+            st.probes["solves_in_fault_free_run:%d" % min(rec.extra["n_solves"], 12)] += 1
             return []
         if self.base is None or not self.base.ok:
             return []
@@ -110,23 +113,29 @@ class Checker(C.BaseChecker):
         st.evaluations += 1
         fits = rec.extra["fits"]
         fired = any(c.get("raised") for c in fits)
-        n_per_est = 1 + 2 * len(p["prediction_intervals"])
-        pos = k % n_per_est
-        which = "median" if pos == 0 else ("lower" if pos % 2 == 1 else "upper")
+        fi = next((i for i, c in enumerate(fits) if c.get("raised")), None)
+        which = "?"
+        if fi is not None:
+            ef_, _ = effective(fits[fi])
+            taus_ = list(np.atleast_1d(ef_["taus"]))
+            pos_in_call = k - fits[fi]["first_solve"]
+            tau_k = float(taus_[pos_in_call]) if 0 <= pos_in_call < len(taus_) else 0.5
+            which = "median" if tau_k == 0.5 else ("lower" if tau_k < 0.5 else "upper")
         lam = p["model_parameters"].get("lambda_", 0) > 0
         st.probes["fault_fired:" + kind if fired else "fault_not_fired"] += 1
         st.state((p["pi_method"], len(p["estimands"]), len(p["prediction_intervals"]), which, kind, lam), fired)
         out = []
         flags = dict(kind=kind, which=which, estimator=p["pi_method"])
         if not fired:
-            return [self.v("harness_fault_not_fired", f"fault at fit {k} did not fire ({len(fits)} fits)", **flags)]
+            return [self.v("harness_fault_not_fired", f"fault at solve {k} did not fire ({len(fits)} fits)", **flags)]
         # (i) the run completes
         if not rec.ok:
-            return [self.v("not_completed", f"{kind} at fit #{k} ({which}) was fatal: {rec.exc_type}: {rec.exc_msg}", exception=rec.exc_type.split(".")[-1], **flags)]
+            return [self.v("not_completed", f"{kind} at solve #{k} ({which}) was fatal: {rec.exc_type}: {rec.exc_msg}", exception=rec.exc_type.split(".")[-1], **flags)]
         # (ii) the retry: next call, same solver object, same arguments, no weight normalisation
-        if len(fits) <= k + 1:
-            return [self.v("no_retry", f"{kind} at fit #{k}: no further fit was attempted", **flags)]
-        a, b = fits[k], fits[k + 1]
+        if len(fits) <= fi + 1:
+            return [self.v("no_retry", f"{kind} at solve #{k}: no further fit was attempted", **flags)]
+        a, b = fits[fi], fits[fi + 1]
+        k_solve, k = k, fi  # from here on k indexes fit CALLS
         ea, ua = effective(a)
         eb, ub = effective(b)
         if ub:
@@ -140,8 +149,8 @@ class Checker(C.BaseChecker):
                 out.append(self.v("retry_arguments", f"retry after fit #{k} ({which}): {name} = {eb[name]!r}, the failed attempt used {ea[name]!r}", argument=name, **flags))
         if eb["normalize_weights"] is not False:
             out.append(self.v("retry_normalizes", f"retry after fit #{k} still normalises the weights", **flags))
-        if len(fits) != ex.spec["n_fits_expected"] + 1:
-            out.append(self.v("fit_count", f"faulted run made {len(fits)} fits, expected {ex.spec['n_fits_expected']} + 1 retry", **flags))
+        if len(fits) != len(self.base.extra["fits"]) + 1:
+            out.append(self.v("fit_count", f"faulted run made {len(fits)} fit calls, the fault-free run {len(self.base.extra['fits'])} (expected exactly one retry more)", **flags))
         else:
             # every other fit of the run is made exactly as in the fault-free run (the failure must not leave state behind)
             bfits = self.base.extra["fits"]
@@ -155,9 +164,9 @@ class Checker(C.BaseChecker):
                                                             f"(e.g. {diff[0]}: {ef0[diff[0]]!r} vs {eb0[diff[0]]!r})" if diff else f"fit #{i} got different X/y", later=bool(i > k), **flags))
                     break
         # (iii) same tables as the reference run (fit k done directly without normalisation)
-        ref = self.ref.get(k)
+        ref = self.ref.get(k_solve)
         if ref is None or not ref.ok:
-            out.append(self.v("harness_reference", f"reference run for fit {k} missing or failed: {ref.exc_msg if ref else None}", **flags))
+            out.append(self.v("harness_reference", f"reference run for solve {k_solve} missing or failed: {ref.exc_msg if ref else None}", **flags))
         elif ref.digest != rec.digest:
             msg = "tables differ"
             for name in sorted(ref.tables):
@@ -184,7 +193,7 @@ class Checker(C.BaseChecker):
             keys = C.table_keys(ex.world, name)
             if C.key_tuples(A, keys) != C.key_tuples(B, keys):
                 out.append(self.v("schema_differs", f"{name}: keys differ from the fault-free run", **flags))
-        if not lam and b.get("coef") is not None and base.extra["fits"][k].get("coef") is not None:
+        if not lam and b.get("coef") is not None and base.extra["fits"][k].get("coef") is not None and len(np.atleast_1d(ea["taus"])) == 1:
             c_retry = np.asarray(b["coef"])[-1]
             c_base = np.asarray(base.extra["fits"][k]["coef"])[-1]
             w = np.asarray(ea["weights"], dtype=float)
